@@ -25,8 +25,11 @@ def check(prog, run):
     def guard_events(f, guards, action):
         """events: 'g:<name>' when a raise guarded by a test mentioning the guard text is *passed* (test false),
         'act' for the action call."""
+        from ..canon import Canon
+        gcn = Canon(f.node)
+
         def bev(test, truth):
-            t = ast.unparse(test)
+            t = gcn.text(test)      # canonical: locals such as `fields` are replaced by what they were assigned
             for name, needle in guards.items():
                 if needle(t):
                     return ("refuse:" if truth else "pass:") + name
@@ -74,7 +77,7 @@ def check(prog, run):
                 if not ok:
                     run.report(r, "%s:subscribe:guard-polarity(stream-runtime)" % SUB, sub.where(n), "`%s` refuses the wrong runtimes" % t)
     g_c = {
-        "single-root-field": lambda t: t.replace(" ", "") in ("len(fields)!=1",) or ("len(fields)" in t),
+        "single-root-field": lambda t: "len(" in t and ".collect_fields(" in t,
         "subscription-resolver": lambda t: "subscription_resolver" in t and "None" in t,
     }
     normal, raised = guard_events(cses, g_c, lambda n: isinstance(n, ast.Call) and isinstance(n.func, ast.Attribute) and n.func.attr == "subscription_resolver")
@@ -91,11 +94,14 @@ def check(prog, run):
                 if ("pass:" + name) not in before:
                     run.report(r, "%s:create_source_event_stream:unguarded-call(%s)" % (SUB, name), cses.where(),
                                "the subscription resolver is reachable without passing the %s refusal" % name)
+    import re
+    from ..canon import Canon
+    ccn = Canon(cses.node)
     for n in own_nodes(cses.node):
-        if isinstance(n, ast.If) and "len(fields)" in ast.unparse(n.test):
-            t = ast.unparse(n.test).replace(" ", "")
+        if isinstance(n, ast.If) and g_c["single-root-field"](ccn.text(n.test)):
+            t = ccn.text(n.test)
             r.instance("single-root-field test `%s`" % t)
-            if t != "len(fields)!=1":
+            if not re.match(r"^len\(\w+\.collect_fields\(.*\)\) != 1$", t):
                 run.report(r, "%s:create_source_event_stream:guard-shape(single-root-field)" % SUB, cses.where(n), "the refusal test is `%s`, not len(fields) != 1" % t)
         if isinstance(n, ast.If) and "subscription_resolver" in ast.unparse(n.test):
             t = ast.unparse(n.test)
@@ -210,12 +216,14 @@ def check(prog, run):
     shapes.require(osc is not None, "C17.S3: _on_stream_created not found")
     mcalls = [n for n in ast.walk(osc.node) if isinstance(n, ast.Call) and isinstance(n.func, ast.Attribute) and n.func.attr == "map_stream"]
     r.instance("_on_stream_created maps with `%s`" % (ast.unparse(mcalls[0]) if mcalls else None))
-    if len(mcalls) != 1 or [ast.unparse(a) for a in mcalls[0].args] != [osc.params[0], "_on_event"]:
+    scn = Canon(sub.node)
+    margs = [scn.text(a) for a in mcalls[0].args] if len(mcalls) == 1 else []
+    if len(margs) != 2 or margs[0] != "$p0":
         run.report(r, "%s:subscribe._on_stream_created:mapping" % SUB, osc.where(), "the source stream is not mapped with the per-event function")
-    oe = [n for n in own_nodes(sub.node) if isinstance(n, ast.Assign) and ast.unparse(n.targets[0]) == "_on_event"]
-    r.instance("_on_event `%s`" % (norm_stmt(oe[0]) if oe else None))
-    if not oe or "execute_subscription_event" not in ast.unparse(oe[0].value):
-        run.report(r, "%s:subscribe:_on_event" % SUB, sub.where(), "_on_event is not execute_subscription_event bound to this operation")
+    r.instance("per-event function `%s`" % (margs[1][:80] if len(margs) == 2 else None))
+    if len(margs) == 2 and not (margs[1].replace(" ", "").startswith("ft.partial(execute_subscription_event,") or margs[1].replace(" ", "").startswith("functools.partial(execute_subscription_event,")
+                                or margs[1].startswith("lambda") and "execute_subscription_event(" in margs[1]):
+        run.report(r, "%s:subscribe:_on_event" % SUB, sub.where(), "the per-event function is not execute_subscription_event bound to this operation")
 
     # ---- S4 recorded, not judged
     r = run.rule("S4", "middlewares are forced to [] for subscriptions (documented behaviour; recorded, not judged)", 1)
